@@ -495,4 +495,7 @@ pub fn run(ctx: &Ctx) {
     let n = ctx.tier.pick(150_000, 5_000_000);
     ctx.explore("plans", RULE, n, strategy, oracle);
     ctx.replay_known("plans", oracle);
+    // non-primitive private data: attached to the right row, to a row that takes none, twice, ...
+    ctx.explore("perm-private-data", crate::checks::pp::RULE_PRIVATE, ctx.tier.pick(20_000, 1_000_000),
+        crate::checks::pp::private_data_strategy, |c| crate::checks::pp::oracle_private_data(c, "C19/perm-private-data"));
 }
